@@ -662,7 +662,8 @@ func genCliHostile(rng *rand.Rand, thorough bool, emit func(*Sx)) {
 	}
 	// hostile values in the remaining typed fields
 	for _, s := range []string{"FULL", "HDRS", "", "full", "FULL\r\nRSET", "X", " FULL"} {
-		for _, nt := range [][]smtp.DSNNotify{{"NEVER"}, {"NEVER", "SUCCESS"}, {"SUCCESS", "SUCCESS"}, {"never"}, {"SUCCESS\r\nRSET"}, {""}, {"DELAY", "FAILURE"}} {
+		for _, nt := range [][]smtp.DSNNotify{{"NEVER"}, {"NEVER", "SUCCESS"}, {"SUCCESS", "SUCCESS"}, {"never"}, {"SUCCESS\r\nRSET"}, {""}, {"DELAY", "FAILURE"},
+			{"SUCCESS", "FAILURE\r\nRSET"}, {"FAILURE\nQUIT", "DELAY"}, {"SUCCESS", "bogus"}, {"SUCCESS", " "}, {"DELAY", "FAILURE ORCPT=rfc822;x"}, {"SUCCESS", ""}} {
 			for _, ty := range []smtp.DSNAddressType{"RFC822", "UTF-8", "", "rfc822", "X\r\nY"} {
 				stream := "220 ready\r\n" + ehloReply(cliExtKeys) + strings.Repeat("250 2.0.0 ok\r\n", 3)
 				cs := cliCase{stream: []byte(stream), focus: "hostile-typed"}
